@@ -33,6 +33,12 @@ type cfg struct {
 	// library's reader, 2: eager reader (whole output known, served in random chunks, the last one with io.EOF)
 	Decomp int  `json:"decomp_mode"`
 	Hooks  bool `json:"compress_hook"` // record the deflate output through Conn.WebsocketCompressor
+	// Engine.BodyAllocator: "" mempool.DefaultMemPool, "aligned" mempool.NewAligned(), "std" mempool.NewSTD(),
+	// "moving" the harness's always-relocating allocator (every Append/Realloc returns a fresh buffer, the old one is poisoned)
+	Alloc string `json:"body_allocator,omitempty"`
+	// which callbacks the application installed: "" OnMessage only (the configuration the model covers), "frame" OnDataFrame
+	// only, "both", "none"
+	Handlers string `json:"handlers,omitempty"`
 }
 
 func (c cfg) modelArgs() string {
@@ -88,6 +94,72 @@ type meterAlloc struct {
 func newMeter() *meterAlloc {
 	return &meterAlloc{in: mempool.DefaultMemPool, live: map[*[]byte]int{}}
 }
+
+var allocKinds = []string{"", "aligned", "std", "moving"}
+
+// the shared instance of the library's aligned allocator (its pools are package-level anyway)
+var sharedAligned = mempool.NewAligned()
+
+func newMeterOf(kind string) *meterAlloc {
+	m := newMeter()
+	switch kind {
+	case "aligned":
+		m.in = sharedAligned
+	case "std":
+		m.in = mempool.NewSTD()
+	case "moving":
+		m.in = &movingAlloc{}
+	}
+	return m
+}
+
+// movingAlloc is a legal mempool.Allocator that relocates on EVERY growth: Append / AppendString / Realloc return a
+// fresh buffer and the old one is poisoned (contents overwritten, header emptied), Free poisons as well. Code that keeps
+// using a pointer it passed to Append/Realloc/Free - which the pooled allocators happen to forgive - breaks visibly.
+type movingAlloc struct{}
+
+func poison(p *[]byte) {
+	if p == nil {
+		return
+	}
+	b := (*p)[:cap(*p)]
+	for i := range b {
+		b[i] = 0xDD
+	}
+	*p = nil
+}
+func (a *movingAlloc) Malloc(size int) *[]byte {
+	b := make([]byte, size)
+	return &b
+}
+func (a *movingAlloc) grow(buf *[]byte, size int) *[]byte {
+	nb := make([]byte, size)
+	if buf != nil {
+		copy(nb, *buf)
+		poison(buf)
+	}
+	return &nb
+}
+func (a *movingAlloc) Realloc(buf *[]byte, size int) *[]byte { return a.grow(buf, size) }
+func (a *movingAlloc) Append(buf *[]byte, more ...byte) *[]byte {
+	n := 0
+	if buf != nil {
+		n = len(*buf)
+	}
+	nb := a.grow(buf, n+len(more))
+	copy((*nb)[n:], more)
+	return nb
+}
+func (a *movingAlloc) AppendString(buf *[]byte, more string) *[]byte {
+	n := 0
+	if buf != nil {
+		n = len(*buf)
+	}
+	nb := a.grow(buf, n+len(more))
+	copy((*nb)[n:], more)
+	return nb
+}
+func (a *movingAlloc) Free(buf *[]byte) { poison(buf) }
 func (a *meterAlloc) note(p *[]byte) {
 	if p == nil {
 		return
@@ -150,6 +222,12 @@ type msg struct {
 	P []byte
 }
 
+type dframe struct {
+	T   int
+	Fin bool
+	P   []byte
+}
+
 type endpoint struct {
 	cfg    cfg
 	eng    *nbhttp.Engine
@@ -160,6 +238,7 @@ type endpoint struct {
 	ev     []string   // events of the current operation
 	writes [][]byte   // every successful conn.Write
 	msgs   []msg      // every OnMessage
+	frames []dframe   // every OnDataFrame
 	infl   [][]string // reader scripts (model notation), one per decompressor instantiated
 	defl   [][]byte   // deflate outputs, one per compressor instantiated
 	chunk  func(max int) int
@@ -180,7 +259,7 @@ func newEngine() *nbhttp.Engine {
 func newEndpoint(c cfg, chunk func(max int) int) *endpoint {
 	ep := &endpoint{cfg: c, chunk: chunk}
 	ep.eng = newEngine()
-	ep.alloc = newMeter()
+	ep.alloc = newMeterOf(c.Alloc)
 	ep.eng.BodyAllocator = ep.alloc
 	ep.eng.ReadLimit = c.ReadLimit
 	ep.eng.MaxWebsocketFramePayloadSize = c.FrameLimit
@@ -192,11 +271,19 @@ func newEndpoint(c cfg, chunk func(max int) int) *endpoint {
 	if err := u.SetCompressionLevel(c.Level); err != nil {
 		hx.Fatal("bad level %d", c.Level)
 	}
-	u.OnMessage(func(_ *websocket.Conn, mt websocket.MessageType, data []byte) {
-		d := append([]byte{}, data...)
-		ep.msgs = append(ep.msgs, msg{int(mt), d})
-		ep.ev = append(ep.ev, fmt.Sprintf("m:%d:%s", int(mt), hx.Hex(d)))
-	})
+	if c.Handlers == "" || c.Handlers == "both" {
+		u.OnMessage(func(_ *websocket.Conn, mt websocket.MessageType, data []byte) {
+			d := append([]byte{}, data...)
+			ep.msgs = append(ep.msgs, msg{int(mt), d})
+			ep.ev = append(ep.ev, fmt.Sprintf("m:%d:%s", int(mt), hx.Hex(d)))
+		})
+	}
+	if c.Handlers == "frame" || c.Handlers == "both" {
+		// not part of the model's event vocabulary: kept apart from ep.ev
+		u.OnDataFrame(func(_ *websocket.Conn, mt websocket.MessageType, fin bool, data []byte) {
+			ep.frames = append(ep.frames, dframe{int(mt), fin, append([]byte{}, data...)})
+		})
+	}
 	websocket.VerifWrapHandlers(u,
 		func(s string) { ep.ev = append(ep.ev, "pi:"+hx.Hex([]byte(s))) },
 		func(s string) { ep.ev = append(ep.ev, "po:"+hx.Hex([]byte(s))) },
